@@ -33,11 +33,11 @@ def showD {β : Type} (sh : β → String) : DVal β → String
 
 def joinOr (l : List String) : String := if l.isEmpty then "-" else ",".intercalate l
 
-inductive Act | new | set | rst
+inductive SegAct | new | set | rst
   deriving DecidableEq
 
 structure Seg (β : Type) where
-  act : Act
+  act : SegAct
   a : β
   b : β
   n : Nat
@@ -49,14 +49,14 @@ structure Inst (β δ γ : Type) where
   G : Gen γ
   load : Basic δ → List β → Basic δ       -- put the recorded outputs into the replaying distribution
   sh : β → String
-  ends : β → β → Nat → String
+  ends : β → β → Nat → List (DVal β) → String
 
 def parseList {β : Type} (rd : String → Option β) (s : String) : Option (List β) :=
   if s = "-" then some [] else (s.splitOn ",").mapM rd
 
 def parseSeg {β : Type} (rd : String → Option β) (withTape : Bool) (tok : String) : Option (Seg β) :=
   let f := tok.splitOn ":"
-  let act? : Option Act := match f[0]? with
+  let act? : Option SegAct := match f[0]? with
     | some "new" => some .new | some "set" => some .set | some "rst" => some .rst | _ => none
   match act?, f[1]? >>= rd, f[2]? >>= rd, f[3]? >>= String.toNat? with
   | some act, some a, some b, some n =>
@@ -79,7 +79,7 @@ def readbacks (I : Inst β δ γ) (ty : Ty) (d : Basic δ) (p : Param2 β) (fres
   s!" min={showD I.sh (Basic.min I.D ty d)} max={showD I.sh (Basic.max I.D ty d)} a={I.sh (I.D.param d.dist).1} b={I.sh (I.D.param d.dist).2} cf={I.sh p.convertFrom.1},{I.sh p.convertFrom.2} eq={eq} ne={ne}"
 
 def segLine (I : Inst β δ γ) (s : Seg β) (seq : List (DVal β)) (rb : String) : String :=
-  "seq=" ++ joinOr (seq.map (showD I.sh)) ++ rb ++ I.ends s.a s.b s.n
+  "seq=" ++ joinOr (seq.map (showD I.sh)) ++ rb ++ I.ends s.a s.b s.n seq
 
 /-- run the segments; `held` is the distribution object of ctor mode `d` together with its parameters -/
 def runSegs (I : Inst β δ γ) (ty : Ty) (ctor : String) :
@@ -130,8 +130,16 @@ end run
 
 /-! ### instances -/
 
-def intEnds (a b : Int) (n : Nat) : String :=
+/-- the real standard distribution: "both ends were drawn" is predicted (statistically) for ≥ 400 draws from at
+most 17 values -/
+def intEnds (a b : Int) (n : Nat) (_ : List (DVal Int)) : String :=
   if n ≥ 400 ∧ b - a ≤ 16 then " ends=1" else " ends=-"
+
+/-- the exactly specified pair: whether both ends were drawn is computed from the predicted sequence -/
+def exactEnds (a b : Int) (n : Nat) (seq : List (DVal Int)) : String :=
+  if n ≥ 400 ∧ b - a ≤ 16 then
+    " ends=" ++ b01 (seq.any (fun v => undecorate v == a) && seq.any (fun v => undecorate v == b))
+  else " ends=-"
 
 abbrev RD (β : Type) := (β × β) × List β
 
@@ -143,15 +151,15 @@ def instInt : Inst Int (RD Int) Unit :=
 
 /-- replay of `std::uniform_real_distribution` on bit patterns: `min() = a`, `max() = b` -/
 def instReal : Inst Nat (RD Nat) Unit :=
-  ⟨replayDist 0 (·.1) (·.2), basicPseudo unitGen, loadTape, toString, fun _ _ _ => ""⟩
+  ⟨replayDist 0 (·.1) (·.2), basicPseudo unitGen, loadTape, toString, fun _ _ _ _ => ""⟩
 
 /-- replay of `std::normal_distribution`: `min() = numeric_limits::lowest()`, `max() = numeric_limits::max()` -/
 def instNormal (lowest max : Nat) : Inst Nat (RD Nat) Unit :=
-  ⟨replayDist 0 (fun _ => lowest) (fun _ => max), basicPseudo unitGen, loadTape, toString, fun _ _ _ => ""⟩
+  ⟨replayDist 0 (fun _ => lowest) (fun _ => max), basicPseudo unitGen, loadTape, toString, fun _ _ _ _ => ""⟩
 
 /-- the exactly specified pair -/
-def instExact : Inst Int (Int × Int) Nat :=
-  ⟨modDist, basicPseudo ctrEngine, fun b _ => b, toString, intEnds⟩
+def instExact : Inst Int ((Int × Int) × Nat) Nat :=
+  ⟨modDist, basicPseudo ctrEngine, fun b _ => b, toString, exactEnds⟩
 
 /-! ### parsing of type codes -/
 
@@ -246,7 +254,7 @@ def enumOp {δ γ : Type} (I : Inst Int δ γ) (k : Nat) (ctor : String) (n : Na
     else if ctor = "vp" then some (Variate.draws I.D ty I.G n ⟨I.load (Variate.ctorParam I.D p).distribution tape⟩ g).1
     else none
   match seq? with
-  | some seq => "seq=" ++ joinOr (seq.map (showD I.sh)) ++ rb ++ I.ends 0 (Int.ofNat k - 1) n
+  | some seq => "seq=" ++ joinOr (seq.map (showD I.sh)) ++ rb ++ I.ends 0 (Int.ofNat k - 1) n seq
   | none => "bad-op"
 
 def opEN (k eng seed ctor tok : String) : String :=
@@ -319,6 +327,335 @@ def opG (eng mode seed tok : String) : String :=
       s!"seq={joinOr ((rawDraws G n tape).map toString)} min={G.min} max={G.max}"
   | _, _, _, _, _ => "bad-op"
 
+/-! ### scripts (`XS`, `IS`, `RS`): several distributions / variates on one generator
+
+`XS <T> <deco> <seed> <act>+` (exact pair), `IS <T> <deco> <eng> <seed> <act>+`, `RS <ur|no> <f|d> <p|s> <eng> <seed> <act>+`.
+Actions: `n:i:a:b` `n2:i:a:b` `mk:i:a:b` (construct `D_i`), `cc:i:j` `mc:i:j` (copy / move construction), `ca:i:j`
+`ma:i:j` (copy / move assignment; `ca:i:i` is self-assignment), `sw:i:j`, `d:i:n[:tape]` (n draws from `D_i`), `r:i`,
+`p:i:a:b`, `e:i:j` (`==`, `!=`), `q:i` (`min/max/a/b/operator<<`), `v:k:i` `vm:k:i` (variate / `make_variate` from
+`D_i`), `vp:k:a:b` (all on the first generator; `d1` `v1` `vm1` `vp1` `g1`: the same on the second generator, seeded
+with `seed + 1000003`), `vc:k:l` `vx:k:l` (copy / move construction of a variate), `va:k:l` `vy:k:l` (assignment), `w:k:n[:tape]` (n draws from `V_k`), `g:n[:tape]` (the generator itself).
+Result: `ok` followed by one field per observing action. -/
+
+structure SInst (β δ γ : Type) where
+  D : StdDist β δ
+  out : δ → String
+  G : Gen γ
+  sh : β → String
+  enc : β → Nat                    -- how a recorded value is put on the generator tape
+  feed : γ → List Nat → γ          -- load the tape of one action (exact pair: nothing to load)
+  osText : Bool
+
+inductive Fmt | none | vals (name : String) | eq | look
+  deriving DecidableEq
+
+structure PTok (β : Type) where
+  acts : List (Act β)
+  fmt : Fmt
+  tape : List Nat
+
+def distSlots : Nat := 4
+/-- the second generator of a script line is seeded with `seed + secondSeedOffset` -/
+def secondSeedOffset : Nat := 1000003
+def varSlots : Nat := 3
+
+def slot? (lim : Nat) (s : String) : Option Nat :=
+  if s.length = 0 ∨ s.length > 2 then none
+  else match s.toNat? with
+    | some n => if n < lim then some n else none
+    | none => none
+
+def count? (s : String) : Option Nat :=
+  if s.length = 0 ∨ s.length > 6 then none
+  else match s.toNat? with
+    | some n => if n ≤ 100000 then some n else none
+    | none => none
+
+/-- `ok a b`: are these parameters acceptable for the distribution (type range, `a ≤ b`, …)? -/
+def parseTok {β : Type} (rd : String → Option β) (okP : β → β → Bool) (enc : β → Nat) (ty : Ty) (withTape : Bool)
+    (tok : String) : Option (PTok β) :=
+  let f := tok.splitOn ":"
+  let par (x y : String) : Option (Param2 β) :=
+    match rd x, rd y with
+    | some a, some b => if okP a b then some ⟨decorate ty a, decorate ty b⟩ else none
+    | _, _ => none
+  let tapeOf (n : Nat) (rdT : String → Option Nat) (t? : Option String) : Option (List Nat) :=
+    if withTape then
+      match t? with
+      | some t => match parseList rdT t with
+        | some l => if l.length = n then some l else none
+        | none => none
+      | none => none
+    else some []
+  match f with
+  | [name, i, x, y] =>
+    if name = "n" ∨ name = "mk" then do
+      let i ← slot? distSlots i; let p ← par x y
+      some ⟨[.newP i p], .none, []⟩
+    else if name = "n2" then do
+      let i ← slot? distSlots i; let p ← par x y
+      some ⟨[.new2 i p.fst p.snd], .none, []⟩
+    else if name = "p" then do
+      let i ← slot? distSlots i; let p ← par x y
+      some ⟨[.setParam i p], .none, []⟩
+    else if name = "vp" ∨ name = "vp1" then do
+      let k ← slot? varSlots i; let p ← par x y
+      some ⟨[.varP k p (name = "vp1")], .none, []⟩
+    else if (name = "d" ∨ name = "d1" ∨ name = "w") ∧ withTape then do
+      let i ← slot? (if name = "w" then varSlots else distSlots) i
+      let n ← count? x
+      let tape ← tapeOf n (fun s => (rd s).map enc) (some y)
+      some ⟨List.replicate n (if name = "w" then .vdraw i else .draw i (name = "d1")), .vals name, tape⟩
+    else none
+  | [name, i, j] =>
+    if name = "cc" ∨ name = "mc" then do
+      let i ← slot? distSlots i; let j ← slot? distSlots j
+      if i = j then none else some ⟨[.copy i j false], .none, []⟩
+    else if name = "ca" then do
+      let i ← slot? distSlots i; let j ← slot? distSlots j
+      some ⟨[.copy i j true], .none, []⟩
+    else if name = "ma" then do
+      let i ← slot? distSlots i; let j ← slot? distSlots j
+      if i = j then none else some ⟨[.copy i j true], .none, []⟩
+    else if name = "sw" then do
+      let i ← slot? distSlots i; let j ← slot? distSlots j
+      some ⟨[.swap i j], .none, []⟩
+    else if name = "e" then do
+      let i ← slot? distSlots i; let j ← slot? distSlots j
+      some ⟨[.eq i j], .eq, []⟩
+    else if name = "v" ∨ name = "vm" ∨ name = "v1" ∨ name = "vm1" then do
+      let k ← slot? varSlots i; let i ← slot? distSlots j
+      some ⟨[.varD k i (name = "v1" ∨ name = "vm1")], .none, []⟩
+    else if name = "vc" ∨ name = "vx" then do
+      let k ← slot? varSlots i; let l ← slot? varSlots j
+      if k = l then none else some ⟨[.varCopy k l false], .none, []⟩
+    else if name = "va" then do
+      let k ← slot? varSlots i; let l ← slot? varSlots j
+      some ⟨[.varCopy k l true], .none, []⟩
+    else if name = "vy" then do
+      let k ← slot? varSlots i; let l ← slot? varSlots j
+      if k = l then none else some ⟨[.varCopy k l true], .none, []⟩
+    else if (name = "d" ∨ name = "d1" ∨ name = "w") ∧ !withTape then do
+      let i ← slot? (if name = "w" then varSlots else distSlots) i
+      let n ← count? j
+      some ⟨List.replicate n (if name = "w" then .vdraw i else .draw i (name = "d1")), .vals name, []⟩
+    else if (name = "g" ∨ name = "g1") ∧ withTape then do
+      let n ← count? i
+      let tape ← tapeOf n String.toNat? (some j)
+      some ⟨List.replicate n (.raw (name = "g1")), .vals name, tape⟩
+    else none
+  | [name, i] =>
+    if name = "r" then do
+      let i ← slot? distSlots i
+      some ⟨[.reset i], .none, []⟩
+    else if name = "q" then do
+      let i ← slot? distSlots i
+      some ⟨[.look i], .look, []⟩
+    else if (name = "g" ∨ name = "g1") ∧ !withTape then do
+      let n ← count? i
+      some ⟨List.replicate n (.raw (name = "g1")), .vals name, []⟩
+    else none
+  | _ => none
+
+def underscored (s : String) : String := s.map (fun c => if c = ' ' then '_' else c)
+
+def showEvs {β δ γ : Type} (I : SInst β δ γ) (fmt : Fmt) (evs : List (Ev (DVal β) β)) : String :=
+  match fmt with
+  | .none => ""
+  | .vals name =>
+    s!" {name}=" ++ joinOr (evs.filterMap fun e => match e with
+      | .val v => some (showD I.sh v) | .raw n => some (toString n) | _ => none)
+  | .eq => "".intercalate (evs.map fun e => match e with | .eq b => s!" e={b01 b}{b01 (!b)}" | _ => "")
+  | .look => "".intercalate (evs.map fun e => match e with
+      | .look mn mx p o => s!" q={showD I.sh mn}/{showD I.sh mx}/{I.sh p.1}/{I.sh p.2}/{if I.osText then underscored o else "="}"
+      | _ => "")
+
+/-- token by token: the whole line is `runScriptF` of the concatenated actions (the tape of an action is loaded
+into the replaying generator right before it) -/
+def runToks {β δ γ : Type} (I : SInst β δ γ) (ty : Ty) :
+    List (PTok β) → ObjsF δ → γ × γ → String → String
+  | [], _, _, acc => acc
+  | t :: rest, s, g, acc =>
+    -- the tape of an action is offered to both generators; only the one the action uses consumes it
+    match runScriptF I.D I.out ty I.G t.acts s (I.feed g.1 t.tape, I.feed g.2 t.tape) with
+    | .ok r => runToks I ty rest r.2.1 r.2.2 (acc ++ showEvs I t.fmt r.1)
+    | .error _ => "bad-op"
+
+def sExact : SInst Int ((Int × Int) × Nat) Nat :=
+  ⟨modDist, modOut, basicPseudo ctrEngine, toString, fun _ => 0, fun g _ => g, true⟩
+
+/-- `std::uniform_int_distribution`: `operator<<` prints `a b` -/
+def sInt : SInst Int (Int × Int) (List Nat) :=
+  ⟨tapeDist unzigzag (·.1) (·.2), fun d => s!"{d.1} {d.2}", basicPseudo tapeGen, toString, zigzag, fun _ t => t, true⟩
+
+def sReal : SInst Nat (Nat × Nat) (List Nat) :=
+  ⟨tapeDist id (·.1) (·.2), fun _ => "", basicPseudo tapeGen, toString, id, fun _ t => t, false⟩
+
+def sNormal (lowest max : Nat) : SInst Nat (Nat × Nat) (List Nat) :=
+  ⟨tapeDist id (fun _ => lowest) (fun _ => max), fun _ => "", basicPseudo tapeGen, toString, id, fun _ t => t, false⟩
+
+def opXS (t d seed : String) (toks : List String) : String :=
+  match intRange t, seed.toNat? with
+  | some (lo, hi), some sd =>
+    let ty? : Option (Ty × Int × Int) :=
+      if d = "p" then some (.base, lo, hi) else if d = "s" then some (.strong .base, lo, hi)
+      else if d = "ss" then some (.strong (.strong .base), lo, hi)
+      else if d = "e5" ∧ t = "i" then some (.enum, 0, 4) else none
+    match ty? with
+    | some (ty, lo, hi) =>
+      let okP := fun (a b : Int) => lo ≤ a && a ≤ b && b ≤ hi && b - a < 2147483648
+      match toks.mapM (parseTok String.toInt? okP (fun _ => 0) ty false) with
+      | some ps =>
+        if sd ≥ 4294967296 || ps.isEmpty then "bad-op"
+        else runToks sExact ty ps ObjsF.empty
+          (basicPseudoSeed (fun s => s) (DVal.strong (.base sd)),
+           basicPseudoSeed (fun s => s) (DVal.strong (.base ((sd + secondSeedOffset) % 4294967296)))) "ok"
+      | none => "bad-op"
+    | none => "bad-op"
+  | _, _ => "bad-op"
+
+def opIS (t d eng seed : String) (toks : List String) : String :=
+  let ty? : Option (Ty × Option Nat) :=
+    if (t = "s" ∧ (d = "p" ∨ d = "s")) ∨ (t = "i" ∧ (d = "p" ∨ d = "ss" ∨ d = "e3" ∨ d = "se3")) ∨ (t = "l" ∧ (d = "p" ∨ d = "s"))
+    then parseDeco d else none
+  match intRange t, ty?, seed.toNat? with
+  | some (lo, hi), some (ty, en), some sd =>
+    let (lo, hi) : Int × Int := match en with
+      | some k => (0, Int.ofNat k - 1)
+      | none => (lo, hi)
+    let okP := fun (a b : Int) => lo ≤ a && a ≤ b && b ≤ hi
+    let rd := fun (s : String) => (s.toInt?).bind fun x => if lo ≤ x && x ≤ hi then some x else none
+    match toks.mapM (parseTok rd okP zigzag ty true) with
+    | some ps =>
+      if !isEng eng || !seedOk eng sd || ps.isEmpty then "bad-op"
+      else runToks sInt ty ps ObjsF.empty ([], []) "ok"
+    | none => "bad-op"
+  | _, _, _ => "bad-op"
+
+def opRS (kind t d eng seed : String) (toks : List String) : String :=
+  match floatBits t, parseDeco d, seed.toNat? with
+  | some bits, some (ty, none), some sd =>
+    let rd := fun (s : String) => (s.toNat?).bind fun x => if x < 2 ^ bits then some x else none
+    match toks.mapM (parseTok rd (fun _ _ => true) id ty true) with
+    | some ps =>
+      if !isEng eng || !seedOk eng sd || (d ≠ "p" ∧ d ≠ "s") || ps.isEmpty then "bad-op"
+      else if kind = "ur" then runToks sReal ty ps ObjsF.empty ([], []) "ok"
+      else if kind = "no" then
+        let inst := if bits = 32 then sNormal 4286578687 2139095039 else sNormal 18442240474082181119 9218868437227405311
+        runToks inst ty ps ObjsF.empty ([], []) "ok"
+      else "bad-op"
+    | none => "bad-op"
+  | _, _, _ => "bad-op"
+
+/-! ### container scripts: `XU <c|m> <seed> <elems|-> <act>+`
+
+`f:i` (factory), `k:i:lo:hi` (constructor with an index interval inside the container), `cc:i:j`, `ca:i:j`, `mc:i:j`, `ma:i:j`,
+`d:i:n` (n draws: `element@index`), `w:pos:x` (the program overwrites an element), `t:i:x` (writes through the
+reference a draw returned; mutable container only), `g:n` (the program calls the generator itself).  The final container is printed last. -/
+
+structure CTok where
+  acts : List (CAct Int)
+  name : String
+
+def parseCTok (mutable : Bool) (size : Nat) (tok : String) : Option CTok :=
+  let f := tok.splitOn ":"
+  let elem? (s : String) : Option Int := (s.toInt?).bind fun x => if -2147483648 ≤ x && x ≤ 2147483647 then some x else none
+  match f with
+  | ["f", i] => do let i ← slot? 3 i; some ⟨[.make i], "f"⟩
+  | ["k", i, lo, hi] => do
+    let i ← slot? 3 i; let lo ← lo.toNat?; let hi ← hi.toNat?
+    if lo ≤ hi ∧ hi < size then some ⟨[.ctor i ⟨.base (Int.ofNat lo), .base (Int.ofNat hi)⟩], "k"⟩ else none
+  | ["cc", i, j] => do let i ← slot? 3 i; let j ← slot? 3 j; if i = j then none else some ⟨[.copy i j false], "cc"⟩
+  | ["mc", i, j] => do let i ← slot? 3 i; let j ← slot? 3 j; if i = j then none else some ⟨[.copy i j false], "mc"⟩
+  | ["ca", i, j] => do let i ← slot? 3 i; let j ← slot? 3 j; some ⟨[.copy i j true], "ca"⟩
+  | ["ma", i, j] => do let i ← slot? 3 i; let j ← slot? 3 j; if i = j then none else some ⟨[.copy i j true], "ma"⟩
+  | ["d", i, n] => do let i ← slot? 3 i; let n ← count? n; some ⟨List.replicate n (.draw i), "d"⟩
+  | ["w", pos, x] => do let pos ← count? pos; let x ← elem? x; if pos < size then some ⟨[.write pos x], "w"⟩ else none
+  | ["t", i, x] => do let i ← slot? 3 i; let x ← elem? x; if mutable then some ⟨[.drawWrite i x], "t"⟩ else none
+  | ["g", n] => do let n ← count? n; some ⟨List.replicate n .raw, "g"⟩
+  | _ => none
+
+def showCEvs (name : String) (evs : List (CEv Int)) : String :=
+  if name = "f" then "".intercalate (evs.map fun e => match e with | .made b => if b then " f=some" else " f=none" | _ => "")
+  else if name = "d" then " d=" ++ joinOr (evs.filterMap fun e => match e with | .elem x i => some s!"{x}@{i}" | _ => none)
+  else if name = "t" then "".intercalate (evs.map fun e => match e with | .elem _ i => s!" t={i}" | _ => "")
+  else if name = "g" then " g=" ++ joinOr (evs.filterMap fun e => match e with | .raw n => some (toString n) | _ => none)
+  else ""
+
+def runCToks : List CTok → List Int → (Nat → Option (Basic ((Int × Int) × Nat))) → Nat → String → String
+  | [], c, _, _, acc => acc ++ " st=" ++ joinOr (c.map toString)
+  | t :: rest, c, s, g, acc =>
+    match runCScript modDist (basicPseudo ctrEngine) t.acts c s g with
+    | .ok r => runCToks rest r.2.1 r.2.2.1 r.2.2.2 (acc ++ showCEvs t.name r.1)
+    | .error _ => "bad-op"
+
+def opXU (cm seed elems : String) (toks : List String) : String :=
+  match seed.toNat?, parseIntList elems with
+  | some sd, some es =>
+    if (cm ≠ "c" ∧ cm ≠ "m") || sd ≥ 4294967296 || !es.all (fun x => -2147483648 ≤ x && x ≤ 2147483647) || toks.isEmpty then "bad-op"
+    else match toks.mapM (parseCTok (cm = "m") es.length) with
+      | some ps => runCToks ps es (fun _ => none) (basicPseudoSeed (fun s => s) (DVal.strong (.base sd))) "ok"
+      | none => "bad-op"
+  | _, _ => "bad-op"
+
+/-! ### `G2 <eng> <seed0> <seed1> <g*n,...> <tape|->`: two generators of one type, drawn from alternately -/
+
+def parsePattern (s : String) : Option (List (Nat × Nat)) :=
+  (s.splitOn ",").mapM fun part =>
+    match part.splitOn "*" with
+    | [g, n] => do
+      let g ← g.toNat?; let n ← count? n
+      if g ≤ 1 ∧ g.repr = toString g then some (g, n) else none
+    | _ => none
+
+def runPattern {γ : Type} (G : Gen γ) : List (Nat × Nat) → γ → γ → List Nat
+  | [], _, _ => []
+  | (w, n) :: rest, g0, g1 =>
+    let rec go : Nat → γ → List Nat × γ
+      | 0, g => ([], g)
+      | k + 1, g => let r := G.next g; let rs := go k r.2; (r.1 :: rs.1, rs.2)
+    if w = 0 then let r := go n g0; r.1 ++ runPattern G rest r.2 g1
+    else let r := go n g1; r.1 ++ runPattern G rest g0 r.2
+
+/-- the part of the recorded output that belongs to generator `w` -/
+def splitTape (w : Nat) : List (Nat × Nat) → List Nat → List Nat
+  | [], _ => []
+  | (v, n) :: rest, tape => (if v = w then tape.take n else []) ++ splitTape w rest (tape.drop n)
+
+def opG2 (eng s0 s1 pat tape : String) : String :=
+  match s0.toNat?, s1.toNat?, parsePattern pat, parseNatList tape with
+  | some a, some b, some p, some tp =>
+    let total := (p.map (·.2)).foldl (· + ·) 0
+    if eng = "ctr" then
+      if a ≥ 4294967296 || b ≥ 4294967296 || !tp.isEmpty then "bad-op"
+      else "seq=" ++ joinOr ((runPattern (basicPseudo ctrEngine) p (basicPseudoSeed (fun s => s) (DVal.strong (.base a)))
+        (basicPseudoSeed (fun s => s) (DVal.strong (.base b)))).map toString)
+    else if !isEng eng || !seedOk eng a || !seedOk eng b || tp.length ≠ total then "bad-op"
+    else "seq=" ++ joinOr ((runPattern (basicPseudo (tapeEngine 0 0)) p (splitTape 0 p tp) (splitTape 1 p tp)).map toString)
+  | _, _, _, _ => "bad-op"
+
+/-! ### `TI <T> <deco> <x>`: `type_iso::decorate` / `undecorate`, `decorated_value`, `base_value` called directly;
+`SC <eng>`: a generator seeded by `seed_from_chrono` is the standard engine seeded with the value inside the seed -/
+
+def opTI (t d x : String) : String :=
+  match intRange t, parseDeco d, x.toInt? with
+  | some (lo, hi), some (ty, en), some v =>
+    let (lo, hi) : Int × Int := match en with
+      | some k => (0, Int.ofNat k - 1)
+      | none => (lo, hi)
+    if (en.isSome && t ≠ "i") || v < lo || v > hi then "bad-op"
+    else
+      let dv := decorate ty v
+      s!"dec={showD toString dv} dv={showD toString (Basic.makeResult ty v)} und={undecorate dv} bv={(Param2.mk dv dv).convertFrom.1}"
+  | _, _, _ => "bad-op"
+
+def opSC (eng : String) : String :=
+  if isEng eng || eng = "ctr" then
+    -- `basic_pseudo(seed)` is `wrapped_(seed.get())` (`basicPseudoSeed_eq`), `operator()` is the wrapped one
+    let s : Nat := 12345
+    s!"same={b01 (rawDraws (basicPseudo ctrEngine) 16 (basicPseudoSeed (fun x => x) (DVal.strong (.base s))) == rawDraws ctrEngine 16 s)}"
+  else "bad-op"
+
 def handle (toks : List String) : String :=
   match toks with
   | "I" :: t :: d :: eng :: seed :: ctor :: segs => opI t d eng seed ctor segs
@@ -329,6 +666,13 @@ def handle (toks : List String) : String :=
   | ["C", ct, eng, seed, elems, tok] => opC ct eng seed elems tok
   | ["XC", seed, elems, tok] => opXC seed elems tok
   | ["G", eng, mode, seed, tok] => opG eng mode seed tok
+  | "XS" :: t :: d :: seed :: toks => opXS t d seed toks
+  | "IS" :: t :: d :: eng :: seed :: toks => opIS t d eng seed toks
+  | "RS" :: kind :: t :: d :: eng :: seed :: toks => opRS kind t d eng seed toks
+  | "XU" :: cm :: seed :: elems :: toks => opXU cm seed elems toks
+  | ["G2", eng, s0, s1, pat, tape] => opG2 eng s0 s1 pat tape
+  | ["TI", t, d, x] => opTI t d x
+  | ["SC", eng] => opSC eng
   | _ => "bad-op"
 
 def main : IO Unit := Proto.run handle
